@@ -282,6 +282,117 @@ struct Ctx {
     tiny_age: usize,
     /// only the five struct rules that end in a document-wide remove_overlaps (monitor of g0_inside)
     ro: LintGroup,
+    /// only UnclosedQuotes (the W correspondence: Model/C12Windows.unclosed_quotes is its exact body)
+    uq: LintGroup,
+    /// the guarded window bodies of Tables_c12rules.window_guards: (rule name, guard letters W / S, a group with only it)
+    guards: Vec<(String, Vec<char>, LintGroup)>,
+}
+
+fn single_rule_group(dict: &Arc<FstDictionary>, name: &str) -> LintGroup {
+    let mut g = LintGroup::new_curated(dict.clone(), Dialect::American);
+    g.set_all_rules_to(Some(false));
+    g.config.set_rule_enabled(name, true);
+    g
+}
+
+/// `Definition window_guards ... := [("AdjectiveOfA", [PWord; PWhitespace; ..]); ..].` of the generated table
+fn read_window_guards() -> Vec<(String, Vec<char>)> {
+    let table = std::fs::read_to_string("/verif/coq/Model/Tables_c12rules.v").unwrap_or_default();
+    let def = |name: &str| -> String {
+        let body = table.split(&format!("Definition {name} ")).nth(1).unwrap_or("");
+        body.split(":=").nth(1).unwrap_or("").split("].").next().unwrap_or("").to_string()
+    };
+    let names: Vec<String> = def("window_guard_names").split('"').skip(1).step_by(2).map(|x| x.to_string()).collect();
+    let pats: Vec<Vec<char>> = def("window_guard_pats")
+        .trim()
+        .trim_start_matches('[')
+        .split('[')
+        .filter(|x| !x.trim().is_empty())
+        .map(|e| {
+            e.split(']').next().unwrap_or("").split(';').filter_map(|x| match x.trim() {
+                "PWord" => Some('W'),
+                "PWhitespace" => Some('S'),
+                _ => None,
+            }).collect()
+        })
+        .collect();
+    if names.len() != pats.len() {
+        return vec![];
+    }
+    names.into_iter().zip(pats).collect()
+}
+
+/// the windows of adjacent tokens that pass a kind guard, with the REAL TokenKind methods the bodies call
+fn guard_candidates(toks: &[Token], g: &[char]) -> Vec<(usize, usize)> {
+    if g.is_empty() || toks.len() < g.len() {
+        return vec![];
+    }
+    toks.windows(g.len())
+        .filter(|w| w.iter().zip(g).all(|(t, p)| if *p == 'W' { t.kind.is_word() } else { t.kind.is_whitespace() }))
+        .filter_map(|w| w.span().map(|s| (s.start, s.end)))
+        .collect()
+}
+
+fn spans_str(l: &[(usize, usize)]) -> String {
+    if l.is_empty() {
+        "-".to_string()
+    } else {
+        l.iter().map(|(s, e)| format!("{s} {e}")).collect::<Vec<_>>().join(",")
+    }
+}
+
+/// Phase 5.  (1) correspondence case W: the real UnclosedQuotes on this document and the guard candidates computed with
+/// TokenKind::is_word / is_whitespace  vs  Model/C12Windows.run_rules (exact UnclosedQuotes body; guarded_rule with the
+/// generated guards and the body that reports every window passing the guard).  (2) monitor `guard_covers`: every lint the
+/// real MergeWords / InflectedVerbAfterTo / AdjectiveOfA report covers exactly one window that passes the rule's guard
+/// (the reading "the body is guarded_rule guard h": nothing is reported unless the guard passes, and the lint is the
+/// window's own).  Returns a description of the first violation.
+fn rules_case(rep: &mut Report, cx: &mut Ctx, doc: &Document, emit_case: bool) -> Option<String> {
+    let toks = doc.get_tokens();
+    let uq = guarded(|| cx.uq.lint(doc));
+    let cands: Vec<Vec<(usize, usize)>> = cx.guards.iter().map(|(_, g, _)| guard_candidates(toks, g)).collect();
+    if emit_case {
+        let mut line = String::from("W");
+        for t in toks {
+            let w = match &t.kind {
+                TokenKind::Punctuation(Punctuation::Quote(q)) => q.twin_loc.map(|j| j + 1).unwrap_or(0),
+                _ => 0,
+            };
+            line.push_str(&format!(" {} {} {} {}", class_code(class_of(&t.kind)), t.span.start, t.span.end, w));
+        }
+        match &uq {
+            Ok(ls) => {
+                let u: Vec<(usize, usize)> = ls.iter().map(|l| (l.span.start, l.span.end)).collect();
+                if !u.is_empty() {
+                    rep.count("rules_case:unclosed_quote_reported");
+                }
+                let mut parts = vec![spans_str(&u)];
+                parts.extend(cands.iter().map(|c| spans_str(c)));
+                rep.count("rules_case:W");
+                rep.case(&line, &format!("W {}", parts.join(" | ")));
+            }
+            Err(_) => rep.case(&line, "PANIC"),
+        }
+    }
+    let mut bad = None;
+    for (i, (name, _, grp)) in cx.guards.iter_mut().enumerate() {
+        let Ok(ls) = guarded(|| grp.lint(doc)) else { continue };
+        rep.monitor("guard_covers:lints_checked", ls.len() as u64);
+        if !ls.is_empty() {
+            rep.count(&format!("rules_case:{name}_reported"));
+        }
+        for l in &ls {
+            if !cands[i].contains(&(l.span.start, l.span.end)) {
+                rep.monitor("guard_covers:violated", 1);
+                bad.get_or_insert(format!(
+                    "{name} reports {}..{} {:?}, which is not a window of adjacent tokens passing its kind guard (Tables_c12rules.window_guards)",
+                    l.span.start, l.span.end, l.message
+                ));
+            }
+        }
+    }
+    rep.monitor("guard_covers:documents_checked", 1);
+    bad
 }
 
 /// the struct rules of shape Merge / ThenRemoveOverlaps (Tables_c12rules.v; C12Main.ro_bodies are their bodies)
@@ -305,7 +416,9 @@ impl Ctx {
         for k in RO_RULES {
             ro.config.set_rule_enabled(k, true);
         }
-        Ctx { dict, keys, warm, fresh_every, since_fresh: 0, pool: None, tiny: tiny_group(), tiny_age: 0, ro }
+        let uq = single_rule_group(&dict, "UnclosedQuotes");
+        let guards = read_window_guards().into_iter().map(|(n, g)| { let grp = single_rule_group(&dict, &n); (n, g, grp) }).collect();
+        Ctx { dict, keys, warm, fresh_every, since_fresh: 0, pool: None, tiny: tiny_group(), tiny_age: 0, ro, uq, guards }
     }
     /// Three linters (one per document of a pair) whose chunk caches are never older than `fresh_every`
     /// pairs and never shared between the three documents of a pair.
@@ -701,6 +814,16 @@ fn check_pair(rep: &mut Report, cx: &mut Ctx, p: &str, d: &str, origin: &str) {
             }
         }
     }
+    // phase 5: UnclosedQuotes + guarded windows (W case on P++D and on D; monitor guard_covers)
+    for text in [&whole, &d.to_string()] {
+        let dict2 = cx.dict.clone();
+        if let Ok(doc) = guarded(|| Document::new_plain_english(text, &dict2)) {
+            let emit = rep.n_cases < 200_000;
+            if let Some(what) = rules_case(rep, cx, &doc, emit) {
+                rep.fail("lint_outside_guard", what, pair_json(p, d, origin));
+            }
+        }
+    }
     // distribution
     let in_p = lp.len();
     let in_d = ld.len();
@@ -959,6 +1082,36 @@ fn gen_overlap(r: &mut Rng) -> (String, String) {
     (format!("{p}\n\n"), d)
 }
 
+/// clauses that make the token-window rules of phase 5 report (AdjectiveOfA, MergeWords, InflectedVerbAfterTo) or bring
+/// their windows right up to a sentence end / the cut, and unpaired quotes for UnclosedQuotes (D only: P is quote-free)
+const WINDOW_CLAUSES: &[&str] = &[
+    "It is not that big of a deal.", "How large of an area is it.", "That was too long of a wait.", "He is not that good of a player.",
+    "The refore we left.", "This is a her etofore unseen problem.", "That s fine.", "We did n t go.", "It was some what odd.",
+    "I want to walked home.", "She tried to goes there.", "We need to asked him.", "They plan to visited us.", "He likes to talked.",
+    "It is that big of.", "We went to.", "This is big of", "The", "to", "I want to",
+];
+const WINDOW_HEADS: &[&str] = &[
+    "a deal.", "an area.", "refore we left.", "s fine.", "walked home.", "asked him.", "of a deal.", " a deal.", " walked home.",
+    "\"Open quote here.", "He said \"hello\" and \"bye.", "One \" two \" three \".", "big of a deal.", "refore",
+];
+
+/// (P, D): P from WINDOW_CLAUSES (closed by a terminator + blank line), D opens with a WINDOW_HEAD (the second half of a
+/// window whose first half closes P) or is built from the clauses — the stream behind C12_guarded_windows_local /
+/// C12_unclosed_quotes_local
+fn gen_windows(r: &mut Rng) -> (String, String) {
+    let mk = |r: &mut Rng, n: usize| -> String {
+        (0..n).map(|_| if r.chance(1, 6) { gen::clean_sentence(r) } else { r.s(WINDOW_CLAUSES).to_string() }).collect::<Vec<_>>().join(r.s(&[" ", " ", "  ", "\n"]))
+    };
+    let n = r.range(1, 3);
+    let mut p = strip_quotes(&mk(r, n));
+    if !matches!(p.chars().last(), Some('.') | Some('!') | Some('?')) {
+        p.push_str(r.s(&[".", "!", "?"]));
+    }
+    let n = r.range(0, 2);
+    let d = format!("{}{}{}", if r.chance(2, 3) { r.s(WINDOW_HEADS) } else { "" }, if r.chance(1, 2) { " " } else { "" }, mk(r, n));
+    (format!("{p}\n\n"), d.trim_start_matches('\n').to_string())
+}
+
 /// (P, D) in which ONE clause with a pattern-rule finding occurs twice with a different amount of leading
 /// whitespace: behind another sentence of P and at the very start of D, or the other way round (seeded change
 /// c12-2: a chunk-cache key that ignores the leading whitespace while the cached spans do not).
@@ -1097,6 +1250,10 @@ pub fn run(a: &Args, corpus: &[Value]) {
     for _ in 0..a.scale(80, 1500) {
         let (p, d) = gen_overlap(&mut r);
         check_pair(&mut rep, &mut cx, &p, &d, "overlap");
+    }
+    for _ in 0..a.scale(120, 2000) {
+        let (p, d) = gen_windows(&mut r);
+        check_pair(&mut rep, &mut cx, &p, &d, "windows");
     }
     for _ in 0..a.scale(250, 4000) {
         let (p, d, p2, d2) = (gen_p(&mut r), gen_d(&mut r), gen_p(&mut r), gen_d(&mut r));
